@@ -113,6 +113,26 @@ def eval_from_grids(prog, f, k, targets):
         except absint.Unsupported as e:
             last = e
             continue
+    # the map may live in a private helper: evaluate from the call whose result is destructured into the targets (the evaluator
+    # follows calls to local functions, the orientation argument is the constant k)
+    for b, t in f.calls():
+        c = callee(t)
+        if not c or f.is_cleanup(b):
+            continue
+        g = prog.fn(c.get("res", c["fn"])) or prog.fn(c["fn"])
+        if g is None or g.crate != f.crate or not f.local_ty(t[3][0]).startswith("("):
+            continue
+        if not any(op_local(a) in ori or (op_local(a) is not None and any(st[0] == "=" and st[1] == [op_local(a)] and st[2][0] == "use"
+                   and op_local(st[2][1]) in ori for st in f.stmts(b))) for a in t[2]):
+            continue
+        try:
+            ev = absint.Evaluator(prog, max_steps=2000)
+            ev.lenient = True
+            env = ev.eval_from(f, b, dict(env0), [x[0] for x in tl])
+            return tuple(as_aff(env[x[0]]) for x in tl)
+        except absint.Unsupported as e:
+            last = e
+            continue
     raise absint.Unsupported("no orientation switch assigns %s (%s)" % (targets, last))
 
 
